@@ -33,7 +33,11 @@ pub(crate) mod verif_rig_dt {
     pub(crate) fn nontty_is_term(_t: &Term) -> bool {
         false
     }
-    pub(crate) fn nontty_attended(_f: &console::TermFeatures<'_>) -> bool {
+    // `'a: 'a` makes the lifetime early-bound, like the impl-level lifetime of TermFeatures<'a>::is_attended (Kani compares generics counts)
+    pub(crate) fn nontty_attended<'a>(_f: &console::TermFeatures<'a>) -> bool
+    where
+        'a: 'a,
+    {
         false
     }
     pub(crate) fn nontty_size(_t: &Term) -> (u16, u16) {
